@@ -123,6 +123,13 @@ func runSendPool(ctx *action.Context, tx action.RawTx) (bool, action.Response) {
 		return helpers.LogAndReturnFalse(ctx.Logger, action.ErrUnserializable, sendPool.Tags(), err)
 	}
 
+	// a delivered transaction may never have passed Validate: check the amount here as well
+	// (a negative amount credited the sender out of the pool; a nil amount of an unknown
+	// currency was dereferenced)
+	if !sendPool.Amount.IsValid(ctx.Currencies) {
+		return helpers.LogAndReturnFalse(ctx.Logger, action.ErrInvalidAmount, sendPool.Tags(), errors.New("invalid amount"))
+	}
+
 	// Get Coin
 	coin := sendPool.Amount.ToCoin(ctx.Currencies)
 	// Deduct from Sender
